@@ -175,12 +175,20 @@ def parseSel (s : String) : Option Sel :=
 
 def count (ws : List (Nat × Nat)) (p : Nat × Nat) : Nat := (ws.filter (· == p)).length
 
+def kv (ws : List String) (key : String) : Option String :=
+  (ws.find? (·.startsWith (key ++ "="))).map (fun w => (w.drop (key.length + 1)).toString)
+
+/-- `zip len=<window length> [off=<window start> total=<container length>] sel=… ext=…`: the container handed
+    to the macro is a window `[off, off+len)` of a vector of `total` elements (a whole vector: `off = 0`,
+    `total = len`); what is printed are the values the tuples show and the whole vector afterwards -/
 def zipLine (line : String) : String :=
   match line.trimAscii.toString.splitOn " " with
-  | ["zip", l, s, e] =>
-    let n := ((l.drop 4).toString.toNat?).getD 0
-    let selStrs := ((s.drop 4).toString.splitOn ",").filter (· ≠ "")
-    let extLens := (((e.drop 4).toString.splitOn ",").filter (· ≠ "")).filterMap (·.toNat?)
+  | "zip" :: ws =>
+    let n := ((kv ws "len").bind (·.toNat?)).getD 0
+    let off := ((kv ws "off").bind (·.toNat?)).getD 0
+    let total := ((kv ws "total").bind (·.toNat?)).getD n
+    let selStrs := (((kv ws "sel").getD "").splitOn ",").filter (· ≠ "")
+    let extLens := ((((kv ws "ext").getD "").splitOn ",").filter (· ≠ "")).filterMap (·.toNat?)
     match mapAll parseSel selStrs with
     | none => "bad-op"
     | some sels =>
@@ -188,11 +196,16 @@ def zipLine (line : String) : String :=
       match run sels extLens.length (fun _ => n) ext with
       | none => "no-rule"
       | some tuples =>
+        -- positions inside the window are positions `off + i` of the vector
+        let shift : Val Item → Val Item := fun v => match v with
+          | .atom (.ref f i m) => .atom (.ref f (off + i) m)
+          | v => v
+        let tuples := tuples.map (·.map shift)
         let ws := writes tuples
         -- the probes print a tuple before writing through it; every position is visited once
         let shown := tuples.map (fun t => "(" ++ ",".intercalate (t.map (renderVal (fun _ => 0))) ++ ")")
         let leaf := fun (j f : Nat) (mult : Nat) =>
-          (List.range n).map (fun i => leafBase j + i + mult * count ws (f, i))
+          (List.range total).map (fun i => leafBase j + i + mult * count ws (f, i))
         let after := s!"a={leaf 0 0 1} b={leaf 1 1 1} c={leaf 2 2 1} d={leaf 3 3 1} x={leaf 4 4 1} y={leaf 5 4 2}"
         " ".intercalate shown ++ " | " ++ after
   | _ => "bad-op"
